@@ -19,7 +19,7 @@ UINT = {'u8': 0, 'u16': 1, 'u32': 2, 'u64': 3, 'u128': 4, 'u256': 5}
 def ekind_term(kind):
     if kind in UINT:
         return '(ek_uint %d)' % UINT[kind]
-    return {'h256': 'ek_h256', 'pair': '(ek_pair Hsha)', 'var': '(ek_var Hsha)', 'nl': '(ek_nl Hsha)'}.get(kind)
+    return {'h256': 'ek_h256', 'pair': '(ek_pair Hsha)', 'quad': '(ek_quad Hsha)', 'var': '(ek_var Hsha)', 'nl': '(ek_nl Hsha)'}.get(kind)
 
 
 def map_term(mp):
